@@ -115,7 +115,23 @@ class HostileFault(InjectedFault):
 
 
 NOVALUE = '<resume-without-value>'
-_RESUME_POOL = ('rv', 0, '', None, False, [], {}, NOVALUE, 'rv')
+_RESUME_POOL = ('rv', 0, '<array-like>', '', None, NOVALUE, False, [], {}, 'rv')
+
+
+class ArrayLike:
+    """A value that compares element-wise, like a numpy array or a pandas Series: ``==`` gives another such object, whose truth
+    value is ambiguous (raises).  Picklable, with a stable repr."""
+
+    def __eq__(self, other):
+        return ArrayLike()
+
+    __hash__ = None
+
+    def __bool__(self):
+        raise ValueError('The truth value of an array with more than one element is ambiguous')
+
+    def __repr__(self):
+        return '<array-like>'
 
 
 def trace_resume(n_steps):
@@ -124,12 +140,14 @@ def trace_resume(n_steps):
     kind = _RESUME_POOL[n_steps % len(_RESUME_POOL)]
     if kind == 'rv':
         return ['rv', n_steps]
+    if kind == '<array-like>':
+        return ArrayLike()
     return kind if kind == NOVALUE else __import__('copy').deepcopy(kind)
 
 
 def apply_trace_resume(proc):
     value = trace_resume(len(proc._trace))
-    if value == NOVALUE:
+    if isinstance(value, str) and value == NOVALUE:
         return proc.resume()
     return proc.resume(value)
 
@@ -696,7 +714,7 @@ def model_run(program, resume_values=None, max_steps=64, repeats=()):
         if kind == 'wait':
             if resume_values == 'trace':
                 value = trace_resume(len(trace))
-                if value == NOVALUE:
+                if isinstance(value, str) and value == NOVALUE:
                     waits += 1
                     index, args, kwargs = ret['to'], [], {}
                     continue
